@@ -66,8 +66,29 @@ type S9 struct {
 
 func (s *S9) Cust() *Base { return &s.inner }
 
+// S10: V reached through four embedded structs
+type D1 struct {
+	T int
+	V string
+}
+type D2 struct {
+	D1
+	U int
+}
+type D3 struct {
+	R int
+	D2
+}
+type D4 struct{ D3 }
+type S10 struct {
+	Q int
+	D4
+}
+
 func shapeValue(sh string) interface{} {
 	switch sh {
+	case "S10":
+		return S10{Q: 15, D4: D4{D3{R: 14, D2: D2{D1: D1{T: 12, V: "v"}, U: 13}}}}
 	case "S9":
 		return S9{X: 91, inner: Base{W: "w", X: 33}}
 	case "S9alt":
